@@ -22,6 +22,7 @@
 (* verification contract (VerifyEq contains r, s in [1, n-1]); entry points that    *)
 (* take integers accept iff both are non-negative and VerifyEq holds.              *)
 EXTENDS Integers, Sequences
+LOCAL INSTANCE SequencesExt
 S  == INSTANCE SM2
 D  == INSTANCE Der
 BN == INSTANCE BigNat
@@ -46,6 +47,21 @@ VEntryGm(en)   == en \in {"asn1sm2", "x509", "legacysm2"}                    \* 
 BadScalar(x) == ~BN!Lt(x, S!NMinus1)
 (* an empty uid selects the default one (documented on SignWithSM2 / VerifyASN1WithSM2 / CalculateSM2Hash) *)
 EffUid(uid) == IF uid = <<>> THEN S!DefaultUid ELSE uid
+
+(* e = H(ZA || M) evaluated block by block.  DigestOf(uid, q, msg) is S!Digest(uid, q, msg): the same  *)
+(* ZA input string (32918.2 5.5) hashed with SM3's own incremental form Chain/Finish (which HashObj's   *)
+(* DigestIsHash shows equal to Hash), folded iteratively.  S!Digest recurses once per 64-byte block on   *)
+(* unevaluated arguments, which for an 8191-byte uid (132 blocks) costs minutes and sometimes TLC's      *)
+(* stack.  selftest/KAT_Sm2KeyObj asserts DigestOf = S!Digest on a grid of lengths and on the Annex A    *)
+(* value of GB/T 32918.5; MC_C06's refine instance asserts it on the values it uses.                     *)
+HashIter(m) ==
+  LET n == Len(m)
+      whole == n \div 64
+      cv == FoldLeft(LAMBDA v, i : S!H!Chain(v, SubSeq(m, 64 * (i - 1) + 1, 64 * i)), S!H!IV, [i \in 1..whole |-> i])
+  IN S!H!Finish(cv, SubSeq(m, 64 * whole + 1, n), n)
+ZAInput(uid, q) == S!By!I2OSP(8 * Len(uid), 2) \o uid \o S!F32(S!A) \o S!F32(S!B) \o S!F32(S!Gx) \o S!F32(S!Gy)
+                   \o S!F32(q[1]) \o S!F32(q[2])
+DigestOf(uid, q, msg) == HashIter(HashIter(ZAInput(uid, q)) \o msg)
 
 NoCand == [kind |-> <<"nocand", "", 0, 0>>, pub |-> <<>>, gm |-> FALSE, uid |-> <<>>, msg |-> <<>>, e |-> <<>>,
            bytes |-> <<>>, ints |-> FALSE, parsed |-> FALSE, rneg |-> FALSE, r |-> <<>>, sneg |-> FALSE, s |-> <<>>]
@@ -90,7 +106,7 @@ Sign(en, uid, msg, dig, prov, stream, skew) ==
         THEN /\ reply' = [NoReply EXCEPT !.op = "sign", !.err = TRUE]
              /\ cur' = cur + skew
              /\ UNCHANGED cand
-        ELSE \E e \in {IF EntryGm(en) THEN S!Digest(EffUid(uid), pub, msg) ELSE dig} :       \* (singleton \E: evaluate once, bind the value)
+        ELSE \E e \in {IF EntryGm(en) THEN DigestOf(EffUid(uid), pub, msg) ELSE dig} :       \* (singleton \E: evaluate once, bind the value)
              \E dr \in {Draw(d, e, stream, cur + skew, 0)} :
                 /\ dr.ok
                 /\ cur' = dr.cur
@@ -113,7 +129,7 @@ SignObserved(en, uid, msg, dig, err, asInts, bytes, r, s) ==
         THEN /\ err
              /\ reply' = [NoReply EXCEPT !.op = "sign", !.err = TRUE]
              /\ UNCHANGED cand
-        ELSE \E e \in {IF EntryGm(en) THEN S!Digest(EffUid(uid), pub, msg) ELSE dig} :
+        ELSE \E e \in {IF EntryGm(en) THEN DigestOf(EffUid(uid), pub, msg) ELSE dig} :
              \E p \in {IF asInts THEN [ok |-> TRUE, r |-> BN!Norm(r), s |-> BN!Norm(s)] ELSE D!StrictSig(bytes)} :
                 /\ ~err
                 /\ p.ok
@@ -135,7 +151,7 @@ WithBytes(c, kind, b) ==
 (* candidate whose message context changed: e follows the context when it is known *)
 WithCtx(c, kind, q, uid, msg) ==
   [c EXCEPT !.kind = kind, !.pub = q, !.uid = uid, !.msg = msg,
-            !.e = IF c.gm THEN S!Digest(EffUid(uid), q, msg) ELSE c.e]
+            !.e = IF c.gm THEN DigestOf(EffUid(uid), q, msg) ELSE c.e]
 
 IntKinds == {"zero", "one", "n", "nm1", "plusn", "max", "neg", "nminus"}
 IntMut(v, x) ==            \* <<negative, magnitude>>
